@@ -505,3 +505,17 @@ impl_transparent_key! {
     i64,
     isize
 }
+
+#[cfg(transparencies_stretto_verif)]
+#[path = "/verif/harness/nd.rs"]
+pub(crate) mod verif_nd;
+#[cfg(transparencies_stretto_verif)]
+#[path = "/verif/harness/env.rs"]
+pub(crate) mod verif_env;
+#[cfg(all(transparencies_stretto_verif, kani))]
+#[path = "/verif/harness/kmap.rs"]
+pub(crate) mod verif_kmap;
+
+#[cfg(all(transparencies_stretto_verif, any(kani, test)))]
+#[path = "/verif/harness/h_lib.rs"]
+mod verif_harness;
